@@ -250,8 +250,8 @@ pub fn check(tier: Tier) -> i32 {
     let budget = Budget::new(wall_cap(tier));
     rep.mandatory_scopes = 2;
     let (l, nl, s) = match tier {
-        Tier::Quick => (3usize, 6usize, 4usize),
-        Tier::Thorough => (4, 10, 5),
+        Tier::Quick => (4usize, 10usize, 5usize),
+        Tier::Thorough => (5, 8, 6),
     };
     let sp = StrSpace::chars("strings", SIGMA_STR, l);
     let mut strs: Vec<String> = (0..sp.len()).map(|i| sp.string_at(i)).collect();
